@@ -61,6 +61,8 @@ PROPS['C05'] = Prop(
     quick=[Run('q_history_k3_int', 'q_history.cpp', {'KK': 3, 'RA': 1, 'PAYLOAD': 0}, covers=11, optional_covers=(11, 12), bounds=_Q_BOUNDS % (3, 1, 'two uint32_t by value')),
            Run('q_history_step_from_any', 'q_history.cpp', {'KK': 1, 'RA': 1, 'PAYLOAD': 0, 'INIT_MAX': 3}, covers=11, optional_covers=(11, 12, 10, 9),
                bounds='STEP FROM ANY STATE: one operation (+1 re-entrant operation) from every quiescent queue state with <= 3 pending events and <= 2 recycled slots (shape determined by these two numbers; keys chosen, payloads symbolic), then a full drain'),
+           Run('q_history_dtor_enqueue', 'q_history.cpp', {'KK': 2, 'RA': 0, 'PAYLOAD': 1, 'INIT_MAX': 2, 'DTORENQ': None}, covers=14, optional_covers=(0, 1, 2, 3, 4, 5, 6, 7, 8, 9, 10, 11, 12),
+               bounds='argument type whose DESTRUCTOR enqueues into the same queue (armed for the next enqueued or the oldest pending event): K=2 steps from every quiescent state with <= 2 pending events and <= 2 recycled slots; the library destroys arguments without holding its locks, so the enqueue is an ordinary one (a lock held across the destructor = self-deadlock on the non-recursive instrumented mutex)'),
            Run('q_history_k2_byvalue', 'q_history.cpp', {'KK': 2, 'RA': 1, 'PAYLOAD': 1}, covers=11, optional_covers=(11, 12, 0, 2, 9), bounds=_Q_BOUNDS % (2, 1, 'copyable tracked object BY VALUE in the prototype (a moved-from payload is recognisable)')),
            Run('q_history_k3_moveonly', 'q_history.cpp', {'KK': 3, 'RA': 0, 'PAYLOAD': 3}, covers=11, optional_covers=(11, 12, 4, 5, 7), bounds=_Q_BOUNDS % (3, 0, 'move-only tracked object by const reference'))],
     thorough=[Run('q_history_step_from_any_k2', 'q_history.cpp', {'KK': 2, 'RA': 1, 'PAYLOAD': 0, 'INIT_MAX': 3}, covers=11, optional_covers=(11, 12, 10, 9), budget_s=1700, bounds='two steps from every quiescent state with <= 3 pending events and <= 2 free slots, RA=1'),
@@ -275,6 +277,8 @@ _LKQ = [_lk('spinlock_t2_r2_p4', 0, 2, 2, 4, 'eventpp::SpinLock (real code)'), _
         Run('spinlock_callbacklist_t2_p3', 'spinlock.cpp', {'LOCKKIND': 2, 'TT': 2, 'RR': 2}, preempt=3, covers=2, mt=True, native=(), linetables=True, bounds='CallbackList under GeneralThreading<SpinLock> (real SpinLock on IR atomics): 2 threads x (2 appends + remove of the first), P<=3; survivors exactly once, in per-thread order')]
 _LKT = [_lk('spinlock_t2_r3_p5', 0, 2, 3, 5, 'eventpp::SpinLock (real code)', budget_s=1700), _lk('spinlock_t3_r2_p3', 0, 3, 2, 3, 'eventpp::SpinLock (real code)', budget_s=1700),
         _lk('stdmutex_t2_r2_p4', 1, 2, 2, 4, 'std::mutex (engine model of pthread_mutex_*; control run for the oracle)')]
+_LKQUEUE = [Run('spinlock_queue_t3_p3', 'spinlock.cpp', {'LOCKKIND': 3, 'TT': 3, 'RR': 1}, preempt=3, covers=2, mt=True, native=(), linetables=True, bounds='EventQueue under GeneralThreading<SpinLock> (real SpinLock on IR atomics): 2 producers x 1 enqueue + 1 consumer (process, processOne), a recycled slot exists at the start, P<=3; after the join the queue is drained: every event exactly once, per producer in order'),
+            _lk('spinlock_t2_r2_p4', 0, 2, 2, 4, 'eventpp::SpinLock (real code)')]
 PROPS['C03'] = Prop(
     quick=_LKQ + [Run('cl_threads_s1_hooks_p2', 'cl_threads.cpp', {'TT': 2, 'SS': 1}, preempt=2, covers=4, optional_covers=(2,), mt=True, bounds=_TH % ('CallbackList', 'instrumented policy', 2, 1, 2, _SP_HOOKS)),
            Run('cl_threads_s2_hooks_p1', 'cl_threads.cpp', {'TT': 2, 'SS': 2, 'OPSET': 1}, preempt=1, covers=4, mt=True, bounds=_TH % ('CallbackList', 'instrumented policy', 2, 2, 1, _SP_HOOKS) + '; reduced operation alphabet (append, prepend, insert-before-B, remove B, ownsHandle B, invoke)'),
@@ -306,8 +310,10 @@ _OPS6 = 'enqueue, process, processOne, takeEvent, clearEvents'
 _OPS7 = 'enqueue, process, processOne, clearEvents'
 _NOREP = '(engine verdict only, no native replay: the per-prototype callback lists inside the heterogeneous classes use std::mutex / std::atomic whatever the Threading policy says, and the native runtime can only schedule the instrumented policy) '
 _QTH = _QT.replace('EventQueue,', 'HeterEventQueue (two prototypes),')
+_DTORQ = Run('q_history_dtor_enqueue', 'q_history.cpp', {'KK': 2, 'RA': 0, 'PAYLOAD': 1, 'INIT_MAX': 2, 'DTORENQ': None}, covers=14, optional_covers=(0, 1, 2, 3, 4, 5, 6, 7, 8, 9, 10, 11, 12),
+              bounds='"no call deadlocks": argument type whose destructor enqueues into the same queue, K=2 steps from every quiescent state with <= 2 pending events and <= 2 recycled slots (single thread; a library lock held across an argument destructor = self-deadlock on the non-recursive mutex)')
 PROPS['C06'] = Prop(
-    quick=[Run('q_threads_ops1_s2_p1', 'q_threads.cpp', {'MODE': 6, 'TT': 2, 'SS': 2, 'OPSET': 1}, preempt=1, covers=2, mt=True, bounds=_QT % (2, 2, _OPS1, '', 1, _SP_HOOKS)),
+    quick=_LKQUEUE + [_DTORQ, Run('q_threads_ops1_s2_p1', 'q_threads.cpp', {'MODE': 6, 'TT': 2, 'SS': 2, 'OPSET': 1}, preempt=1, covers=2, mt=True, bounds=_QT % (2, 2, _OPS1, '', 1, _SP_HOOKS)),
            Run('q_threads_ops2_s1_p2', 'q_threads.cpp', {'MODE': 6, 'TT': 2, 'SS': 1, 'OPSET': 2}, preempt=2, covers=2, optional_covers=(0,), mt=True, bounds=_QT % (2, 1, _OPS2, '', 2, _SP_HOOKS)),
            Run('q_threads_all_s1_auto_p1', 'q_threads.cpp', {'MODE': 6, 'TT': 2, 'SS': 1, 'OPSET': 0}, preempt=1, covers=2, mt=True, shared_points=True, native=(), bounds=_QT % (2, 1, _OPS0, '', 1, _SP_AUTO)),
            Run('q_threads_peek_s2_auto_p1', 'q_threads.cpp', {'MODE': 6, 'TT': 2, 'SS': 2, 'OPSET': 3}, preempt=1, covers=2, optional_covers=(0,), mt=True, shared_points=True, native=(), bounds=_QT % (2, 2, _OPS3, '', 1, _SP_AUTO)),
@@ -417,8 +423,9 @@ _C20Q = [
     _cfg('c20_copymove_queue_multi_cxx17', 'copymove.cpp', {'KK': 2, 'OBJ': 2, 'THREADING': _MT}, 'c++17', None, 'C10 EventQueue K=2, MultipleThreading (std::atomic default constructor leaves the value indeterminate before C++20), pre-filled storage', 11, (7, 8, 9, 10)),
     _cfg('c20_copymove_hqueue_multi_cxx20', 'copymove.cpp', {'KK': 2, 'OBJ': 5, 'THREADING': _MT}, 'c++20', 'O2', 'C10 HeterEventQueue K=2, MultipleThreading', 11, (7, 8, 9, 10)),
 ]
+_C20LK = [_lk('c20_spinlock_t2_r2_p4', 0, 2, 2, 4, 'eventpp::SpinLock (real code)'), _lk('c20_stdmutex_t2_r2_p4', 1, 2, 2, 4, 'std::mutex (engine model of pthread_mutex_*): the same oracle, so both Mutex choices of the multi-threaded policy give mutual exclusion')]
 PROPS['C20'] = Prop(
-    quick=_C20Q,
+    quick=_C20Q + _C20LK,
     thorough=_C20Q + [
     _cfg('c20_cl_multi_func_cxx20_O2', 'cl_history.cpp', {'KK': 4, 'THREADING': _MT, 'CBFUNC': None, 'HAVOC': None}, 'c++20', 'O2', 'C01 K=4, MultipleThreading, std::function', 8, (3, 4, 5, 7), budget_s=1700),
     _cfg('c20_cl_single_pod_cxx14_O1', 'cl_history.cpp', {'KK': 4, 'THREADING': _ST, 'HAVOC': None}, 'c++14', None, 'C01 K=4, SingleThreading', 8, (3, 4), budget_s=1700),
